@@ -71,6 +71,9 @@ static Sc vpow(Sc b, Sc e)
   return __CPROVER_uninterpreted_pow(b, e);
 }
 
+Sc __CPROVER_uninterpreted_eps(void);
+static Sc VF_EPS(void) { Sc e = __CPROVER_uninterpreted_eps(); __CPROVER_assume(e > 0); return e; }   /* numeric_limits<Scalar>::epsilon(): some positive constant */
+static Sc VF_NAN(void) { ghost_nan = 1; return LITf(0, 1); }                                       /* quiet_NaN(): ghost flag + placeholder value */
 /* static members of manufactured_solution<Scalar>: both are acos(Scalar(-1)) (masa_class.cpp:80,83) */
 Sc pi, PI;
 #define VF_PI_OK (pi == PI)
